@@ -9,7 +9,7 @@
    real stages have this shape (exit codes of killed / exiting / raising workers, what is
    on disk after the call) is established by the fault-injection runs of
    harness/props/c14.py on the real code, not proved. *)
-From Coq Require Import ZArith List Bool.
+From Coq Require Import ZArith List Bool Permutation.
 From CTM Require Import Base.Sx Model.Pool Model.RunEffects Proofs.PoolP Proofs.RunEffectsP Proofs.SelPoolP.
 Import ListNotations.
 
@@ -133,16 +133,77 @@ Print Assumptions c14_no_complete_output.
 (* the scheduler of select_all_markers has its own loop (behemoth parents one at a time,
    parents without leaf pairs completed inline): for every world, bound and partition of
    the parents, a clean verdict means every parent that was given a process exited with
-   code 0; a raise names a started parent and its non-zero code.
-   NOT PROVED for this loop (c14_selection_scheduler is therefore partial): that the verdict
-   is never PHang, i.e. that the `while ... or not have_chosen_parent` poll cannot spin with
-   nothing running; the virtual-schedule runs observe no hang. *)
+   code 0; a raise names a started parent and its non-zero code.  (Safety only; kept next
+   to the full statement c14_selection_scheduler below.) *)
 Theorem c14_selection_scheduler_partial : forall (W : world) (n : nat) (behemoths smaller leafless : list nat),
   let r := run_selection_pool W n behemoths smaller leafless in
   (fst r = POk -> forall p, In p (ss_started (snd r)) -> mem p leafless = false -> code W p = 0%Z) /\
   (forall w c, fst r = PRaised w c -> In w (ss_started (snd r)) /\ c = code W w /\ c <> 0%Z).
 Proof. exact selection_pool_verdict. Qed.
 Print Assumptions c14_selection_scheduler_partial.
+
+(* the full statement.  For every world W (every worker has an exit code and a finite
+   duration), every n >= 1, every duplicate-free list of parents split in any way into
+   behemoths and smaller, and any set of leafless parents:
+   - the verdict is never PHang: the fuels chosen in run_selection_pool suffice, because each
+     iteration of `while len(started_parents) < len(parent_list)` either starts a parent or --
+     when no parent can be chosen -- finds a behemoth in process_dict (pool invariant) and
+     polls until a worker is popped, and every inner poll loop ends within max(dur)+1 polls;
+   - on Ok EVERY parent was started and completed (started and completed are permutations of
+     the parent list), process_dict is empty and every parent with leaf pairs exited with 0;
+   - a raise names a parent of the list that has leaf pairs, with its non-zero code;
+   - if some parent with leaf pairs has a non-zero code the verdict is a raise. *)
+Theorem c14_selection_scheduler : forall (W : world) (n : nat) (behemoths smaller leafless : list nat),
+  (1 <= n)%nat -> NoDup (behemoths ++ smaller) ->
+  let parents := behemoths ++ smaller in
+  let r := run_selection_pool W n behemoths smaller leafless in
+  fst r <> PHang /\
+  (fst r = POk ->
+     Permutation (ss_started (snd r)) parents /\ Permutation (ss_completed (snd r)) parents /\
+     ss_running (snd r) = [] /\
+     forall p, In p parents -> mem p leafless = false -> code W p = 0%Z) /\
+  (forall w c, fst r = PRaised w c ->
+     In w parents /\ mem w leafless = false /\ c = code W w /\ c <> 0%Z) /\
+  ((exists p, In p parents /\ mem p leafless = false /\ code W p <> 0%Z) ->
+     exists w c, fst r = PRaised w c).
+Proof. exact selection_scheduler. Qed.
+Print Assumptions c14_selection_scheduler.
+
+(* the same with the parents numbered 0..k-1 and partitioned into behemoths / smaller *)
+Theorem c14_selection_scheduler_partition : forall (W : world) (n k : nat) (behemoths smaller leafless : list nat),
+  (1 <= n)%nat -> Permutation (behemoths ++ smaller) (seq 0 k) ->
+  let r := run_selection_pool W n behemoths smaller leafless in
+  fst r <> PHang /\
+  (fst r = POk ->
+     Permutation (ss_started (snd r)) (seq 0 k) /\ Permutation (ss_completed (snd r)) (seq 0 k) /\
+     ss_running (snd r) = [] /\
+     forall p, (p < k)%nat -> mem p leafless = false -> code W p = 0%Z) /\
+  (forall w c, fst r = PRaised w c ->
+     (w < k)%nat /\ mem w leafless = false /\ c = code W w /\ c <> 0%Z) /\
+  ((exists p, (p < k)%nat /\ mem p leafless = false /\ code W p <> 0%Z) ->
+     exists w c, fst r = PRaised w c).
+Proof. exact selection_scheduler_partition. Qed.
+Print Assumptions c14_selection_scheduler_partition.
+
+(* what the scheduler is there to enforce, at every state the loop can hand back (stop the
+   outer loop after any number `outer` of iterations, starve the inner loops with any
+   `fuel`): at most n processes, and at most one behemoth among them *)
+Theorem c14_selection_limits : forall (W : world) (n : nat) (behemoths smaller leafless : list nat) (outer fuel : nat),
+  (1 <= n)%nat -> NoDup (behemoths ++ smaller) ->
+  let s := snd (sel_loop outer fuel W n (length behemoths + length smaller) behemoths smaller leafless sel_init) in
+  (length (ss_running s) <= n)%nat /\
+  (forall b1 b2, In b1 behemoths -> In b2 behemoths ->
+     In b1 (map fst (ss_running s)) -> In b2 (map fst (ss_running s)) -> b1 = b2).
+Proof. exact scheduler_limits. Qed.
+Print Assumptions c14_selection_limits.
+
+(* the hypothesis NoDup is needed: with a parent listed twice in parent_list the loop spins
+   for ever (a set of started parents never reaches the length of the list).  No caller inside
+   the package builds such a list (taxonomy_tree.all_parents is duplicate-free). *)
+Theorem c14_selection_duplicate_parent_refuted :
+  fst (run_selection_pool {| code := fun _ => 0%Z; dur := fun _ => 1%nat |} 2 [] [0; 0]%nat []) = PHang.
+Proof. exact duplicate_parent_hangs. Qed.
+Print Assumptions c14_selection_duplicate_parent_refuted.
 
 (* a failed run (model shape) satisfies the clauses of the property itself *)
 Theorem c14_failed_trace_has_property : forall c tr raised,
@@ -188,3 +249,20 @@ Example c14_example_selection :
   fst (run_selection_pool W 2 [0; 1] [2; 3] [3])%nat = PRaised 1 (-9) /\
   fst (run_selection_pool {| code := fun _ => 0%Z; dur := fun _ => 1%nat |} 2 [0; 1] [2; 3] [3])%nat = POk.
 Proof. vm_compute. split; reflexivity. Qed.
+
+(* the hypotheses of c14_selection_scheduler on a non-trivial instance: five parents, 0 and 3
+   behemoths, 4 without leaf pairs, two processes at a time, unequal durations; every parent
+   is started, the behemoths never together *)
+Example c14_example_scheduler :
+  let W := {| code := fun _ => 0%Z; dur := fun w => (9 - 2 * w)%nat |} in
+  let r := run_selection_pool W 2 [0; 3] [1; 2; 4] [4]%nat in
+  NoDup ([0; 3] ++ [1; 2; 4])%nat /\ Permutation ([0; 3] ++ [1; 2; 4])%nat (seq 0 5) /\
+  fst r = POk /\ ss_started (snd r) = [0; 1; 2; 3; 4]%nat /\ ss_completed (snd r) = [1; 0; 2; 3; 4]%nat /\
+  fst (run_selection_pool {| code := fun w => if Nat.eqb w 3 then 1%Z else 0%Z; dur := fun w => (9 - 2 * w)%nat |}
+                          2 [0; 3] [1; 2; 4] [4])%nat = PRaised 3 1.
+Proof.
+  cbv zeta. split; [|split].
+  - repeat constructor; cbn; intuition discriminate.
+  - cbn. apply perm_skip. apply (Permutation_cons_app [1; 2]%nat [4]%nat 3%nat). reflexivity.
+  - vm_compute. repeat split; reflexivity.
+Qed.
